@@ -198,7 +198,7 @@ def main(tier):
     # operations that need none, the same pass twice on one object (a statement list shared between input and output
     # only shows when the pass runs again)
     deep = passes.enumerate_programs(rep, 'nestings-deep', passes.ast_cfg('H_T', 'M_E0', 'T_T', 'O_TD', 8, 4), wd,
-                                     sim=(400, 40) if tier == 'quick' else (4000, 50), budget=250 if tier == 'quick' else 3000)
+                                     sim=(700, 40) if tier == 'quick' else (4000, 50), budget=450 if tier == 'quick' else 3000)
     for n, p in enumerate(deep):
         for m, h in enumerate([('T', 'T'), ('T', 'G', 'T'), ('T', 'U')]):
             jobs.append({'id': 'nestings-deep/%d/h%d' % (n, m), 'prog': p, 'hist': h, 'seed': n * 10 + m})
